@@ -299,6 +299,11 @@ func countMethodIfSwitch(statement IBlockStatementContext, bsInfo *bs_domain.Fun
 }
 
 func (s *BadSmellListener) EnterAnnotation(ctx *AnnotationContext) {
+	// an annotation written `pkg.@Name` (in front of a type) has no qualifiedName child
+	if ctx.QualifiedName() == nil {
+		return
+	}
+
 	if currentClzType == "Class" && ctx.QualifiedName().GetText() == "Override" {
 		currentClassBs.OverrideSize++
 	}
